@@ -136,6 +136,49 @@ class C16Bounded(Bounded):
             ran = os.path.exists(marker + ("_vars" if inside else "_sibling"))
             if ran != inside:
                 fails.append({"text": f"vars file {vf} with allowed base {os.path.dirname(varsfile)}: executed={ran}, expected {inside}", "input": [vf]})
+        # an EMPTY list of allowed directories allows no directory (it is not "no restriction"), for every way of passing it and every item kind
+        tdoc = lambda vf: {"postprocessing": [{"type": "template", "template": "{{ query }}", "vars": vf}, {"type": "nest", "items": []}],
+                           "finalizers": [{"type": "template", "template": "{{ queries }}", "vars": vf}, {"type": "nested", "finalizers": [{"type": "template", "template": "x", "vars": vf}]}]}
+        import yaml as _yaml
+        for empty in ((), []):
+            for how in ("dict", "yaml"):
+                ev += 1
+                nontriv += 1
+                for m in ("_vars", "_sibling"):
+                    if os.path.exists(marker + m):
+                        os.unlink(marker + m)
+                try:
+                    if how == "dict":
+                        ProcessingPipeline.from_dict(tdoc(varsfile), allow_template_vars=True, vars_allowed_paths=empty)
+                    else:
+                        ProcessingPipeline.from_yaml(_yaml.safe_dump(tdoc(varsfile)), allow_template_vars=True, vars_allowed_paths=empty)
+                except (SigmaError, ValueError, TypeError):
+                    pass
+                if os.path.exists(marker + "_vars"):
+                    fails.append({"text": f"allow_template_vars=True with vars_allowed_paths={empty!r} ({how}): the vars file {varsfile} was executed although no directory is allowed", "input": ["empty allow-list", how]})
+        # directories derived from the pipeline file's location are a restriction, not an opt-in: a file loaded by name with default arguments
+        # executes no vars file, not even one next to it
+        pfile = os.path.join(root, "vars", "pipeline.yml")
+        open(pfile, "w").write(_yaml.safe_dump(tdoc("v.py")))
+        open(os.path.join(root, "vars", "abs.yml"), "w").write(_yaml.safe_dump(tdoc(varsfile)))
+        from sigma.processing.resolver import ProcessingPipelineResolver
+        for name, load in (("from_yaml with source_path", lambda f: ProcessingPipeline.from_yaml(open(f).read(), source_path=f)), ("resolver.resolve_pipeline", lambda f: ProcessingPipelineResolver().resolve_pipeline(f)),
+                           ("resolver.resolve of the directory", lambda f: ProcessingPipelineResolver().resolve([os.path.dirname(f)]))):
+            for f in (pfile, os.path.join(root, "vars", "abs.yml")):
+                ev += 1
+                nontriv += 1
+                if os.path.exists(marker + "_vars"):
+                    os.unlink(marker + "_vars")
+                cwd = os.getcwd()
+                try:
+                    os.chdir(os.path.dirname(f))
+                    load(f)
+                except (SigmaError, ValueError, TypeError, OSError):
+                    pass
+                finally:
+                    os.chdir(cwd)
+                if os.path.exists(marker + "_vars"):
+                    fails.append({"text": f"pipeline file {f} loaded through {name} with default arguments executed the vars file next to it", "input": ["source_path", name, os.path.basename(f)]})
         shutil.rmtree(root, ignore_errors=True)
         return {"evaluations": ev, "distinct_nontrivial": nontriv, "failures": fails[:20], "bound": f"{len(docs)} item shapes x {len(masks)} injection-depth masks x (from_dict, from_yaml), default arguments, environment variables unset; masks 0 and 31 also with the variables set to '0', 'false', 'no', 'off', '', and after an earlier load with every opt-in argument that succeeded / failed in each section",
                 "rule": "distinct (document, mask, loader) triples; non-trivial = at least one injected key", "samples": samples, "exhaustive": tier != "quick"}
